@@ -1,6 +1,6 @@
 (* Props/C11.v - Server-side cursors deliver every row exactly once, in order. *)
 From Coq Require Import List Arith NArith Lia Bool.
-From MM Require Import Lib.Bytes Model.Conn Model.Resp Proofs.RespProofs Proofs.FetchProofs Gen.FactsConn.
+From MM Require Import Lib.Bytes Model.Conn Model.Resp Proofs.RespProofs Proofs.FetchProofs Proofs.C10Proofs Proofs.C03Proofs Proofs.CursorProofs Gen.FactsConn.
 From MM Require Import Gen.FactsOutline.
 Import ListNotations.
 Open Scope N_scope.
@@ -53,3 +53,79 @@ Example c11_seven_rows_2_2_5 :
   map fst (fetches BATCH 0 (repeat (IRow 3) 7) 0 [2; 2; 5]) =
   [[PRow 0; PRow 1]; [PRow 2; PRow 3]; [PRow 4; PRow 5; PRow 6]].
 Proof. vm_compute. reflexivity. Qed.
+
+(* ---- over whole lock-step conversations (Proofs/CursorProofs.v, on the connection machine Model/Conn.v) ------------------- *)
+
+(* One round of a command whose handler is a straight plan (no application call): through every suspension - rows becoming
+   ready, the loop's turns, the socket pausing and resuming, in any number and order - the machine executes exactly the
+   operations of that plan, or the client is sent an ERR: the watched statement ends up as those operations leave it, and the
+   packets sent are those the plan writes, in order. *)
+Theorem c11_round_executes_plan : forall B dep id c evs s,
+  quiescent dep s -> at_prompt s -> Forall allowed evs ->
+  let h := handler BATCH (set_exec (set_seq (set_inq (set_inq s [c]) []) ((seq (set_inq s [c]) + 1) mod 256)) true) c in
+  Forall simple (snd h) ->
+  let r := exec B BATCH s (EvPayload c :: evs) in
+  at_prompt (fst r) ->
+  has_err (map snd (pkts_out (snd r)) ++ bufp (fst r)) \/
+  (find_stmt id (stmts (fst r)) = applyl id (find_stmt id (stmts (fst h))) (snd h) /\
+   map snd (pkts_out (snd r)) ++ bufp (fst r) = pkts (snd h)).
+Proof. intros B. exact (round_executes_plan B BATCH). Qed.
+
+(* COM_STMT_FETCH id n at the prompt of a connection with a cursor open on id (`items` to come, j rows fetched so far): when
+   the server is back at its prompt the client has been sent an ERR, or exactly the rows j .. j+m-1 (m = min(n, rows left)),
+   in order, and the terminator with last-row-sent iff the fetch could not be filled; the cursor has advanced by exactly
+   those rows; no other statement has changed. *)
+Theorem c11_fetch_round : forall B dep id n szf evs s items j,
+  quiescent dep s -> at_prompt s -> Forall allowed evs ->
+  find_stmt id (stmts s) = Some (mk_stmt (Some items) j) -> has_raise items = false ->
+  let r := exec B BATCH s (EvPayload (CFetch id n szf) :: evs) in
+  at_prompt (fst r) ->
+  let sent := map snd (pkts_out (snd r)) in
+  let m := N.min n (N.of_nat (nrows items)) in
+  has_err sent \/
+  (sent = row_pkts (seqN j (N.to_nat m)) ++ [CursorProofs.term_pkt dep (if m <? n then FL_LAST_ROW_SENT else FL_CURSOR_EXISTS)] /\
+   find_stmt id (stmts (fst r)) = Some (mk_stmt (Some (rest items 0 n)) (j + m)) /\
+   forall i, i <> id -> find_stmt i (stmts (fst r)) = find_stmt i (stmts s)).
+Proof. intros B. exact (fetch_round B BATCH). Qed.
+
+(* nothing else on the connection moves a cursor: a round of ANY command that does not address the statement - queries with
+   their results, executions / fetches / resets / closes of other statements, PREPAREs, COM_CHANGE_USER with its whole
+   exchange - leaves it exactly as it was, wherever the connection is suspended afterwards *)
+Theorem c11_other_rounds_keep_the_cursor : forall B dep id c evs s,
+  quiescent dep s -> at_prompt s -> Forall allowed evs -> addresses id c = false ->
+  (match c with CPrepare _ _ => next_stmt s <> id | _ => True end) ->
+  let r := exec B BATCH s (EvPayload c :: evs) in
+  forall w k f ic, ctl_ (fst r) = Susp w k f ic -> find_stmt id (stmts (fst r)) = find_stmt id (stmts s).
+Proof. intros B. exact (other_round_keeps_statement B BATCH). Qed.
+
+(* hence: a fetch, any such round, another fetch - the second continues exactly where the first stopped *)
+Theorem c11_fetches_continue : forall B dep id n1 n2 z1 z2 evs1 c evs2 evs3 s items j,
+  quiescent dep s -> at_prompt s -> find_stmt id (stmts s) = Some (mk_stmt (Some items) j) -> has_raise items = false ->
+  Forall allowed evs1 -> Forall allowed evs2 -> Forall allowed evs3 -> cmd_ok c -> addresses id c = false ->
+  let r1 := exec B BATCH s (EvPayload (CFetch id n1 z1) :: evs1) in
+  let r2 := exec B BATCH (fst r1) (EvPayload c :: evs2) in
+  let r3 := exec B BATCH (fst r2) (EvPayload (CFetch id n2 z2) :: evs3) in
+  (match c with CPrepare _ _ => next_stmt (fst r1) <> id | _ => True end) ->
+  at_prompt (fst r1) -> at_prompt (fst r2) -> at_prompt (fst r3) ->
+  let sent1 := map snd (pkts_out (snd r1)) in let sent3 := map snd (pkts_out (snd r3)) in
+  ~ has_err sent1 -> ~ has_err sent3 ->
+  let m1 := N.min n1 (N.of_nat (nrows items)) in
+  let m2 := N.min n2 (N.of_nat (nrows items) - m1) in
+  sent1 = row_pkts (seqN j (N.to_nat m1)) ++ [CursorProofs.term_pkt dep (if m1 <? n1 then FL_LAST_ROW_SENT else FL_CURSOR_EXISTS)] /\
+  sent3 = row_pkts (seqN (j + m1) (N.to_nat m2)) ++ [CursorProofs.term_pkt dep (if m2 <? n2 then FL_LAST_ROW_SENT else FL_CURSOR_EXISTS)].
+Proof. intros B. exact (two_fetches B BATCH). Qed.
+
+(* the premises are met by a real conversation: handshake, PREPARE, EXECUTE with a cursor over four rows (one of them
+   arriving late), FETCH 2 under a paused socket, a PING, FETCH 5 - and the rows arrive as 0 1 | 2 3 *)
+Example c11_conversation_nonvacuous :
+  let s0 := fst (exec 32768 BATCH (fst (boot 32768 BATCH 78)) [EvHandshake true true; EvDecide ASuccess; EvApp OVoid;
+                   EvPayload (CPrepare 0 (mk_sizes 12 [] 5 0)); EvPayload (CExecute 0 true);
+                   EvApp (OSet (mk_sizes 1 [26] 5 7) [IRow 9; IRow 9; ISuspend; IRow 9; IRow 9])]) in
+  let r1 := exec 32768 BATCH s0 [EvPayload (CFetch 0 2 7); EvPause; EvResume] in
+  let r2 := exec 32768 BATCH (fst r1) [EvPayload CPing] in
+  let r3 := exec 32768 BATCH (fst r2) [EvPayload (CFetch 0 5 7); EvRowReady] in
+  quiescent true s0 /\ at_prompt s0 /\ find_stmt 0 (stmts s0) = Some (mk_stmt (Some [IRow 9; IRow 9; ISuspend; IRow 9; IRow 9]) 0) /\
+  at_prompt (fst r1) /\ at_prompt (fst r2) /\ at_prompt (fst r3) /\
+  map snd (pkts_out (snd r1)) = [PRow 0; PRow 1; POk true FL_CURSOR_EXISTS] /\
+  map snd (pkts_out (snd r3)) = [PRow 2; PRow 3; POk true FL_LAST_ROW_SENT].
+Proof. vm_compute. repeat split; reflexivity. Qed.
